@@ -1,0 +1,10 @@
+//go:build verif
+
+// Contracts for package lz4, read by /verif's govc (see /verif/DESIGN.md). Comment-only.
+package lz4
+
+//@ func decompress
+//@   prop C04, C08
+//@   invariant #0 size: 2*len(source) <= i && i <= 16*len(source)
+//@   invariant #0 written: 0 <= written && written <= len(dest)
+//@   decreases #0 16*len(source) - i
